@@ -712,6 +712,11 @@ func checkVPNWiring(p *Prog, r *Report) {
 		if fn.Pkg != p.SPkg("command") {
 			continue
 		}
+		if fn.Parent() != nil && SummOption(fn.Parent()) != nil {
+			continue
+		}
+		seen, okAll, detail := false, true, ""
+		var pos string
 		for _, s := range Paths(fn).Segs {
 			for _, e := range s.Events {
 				if e.Kind != EvStore {
@@ -721,9 +726,8 @@ func checkVPNWiring(p *Prog, r *Report) {
 				if !ok || fieldName(fa.X.Type(), fa.Field) != "vpnMode" {
 					continue
 				}
-				if fn.Parent() != nil && SummOption(fn.Parent()) != nil {
-					continue
-				}
+				seen = true
+				pos = p.Pos(e.Instr.Pos())
 				b, isB := constBool(e.Val)
 				macNil := false
 				for _, f := range s.Facts {
@@ -735,8 +739,13 @@ func checkVPNWiring(p *Prog, r *Report) {
 						macNil = (bo.Op == token.EQL) == f.Truth
 					}
 				}
-				r.Check(isB && b && macNil, "C05.R4", FuncName(fn)+"/sets-vpnMode", p.Pos(e.Instr.Pos()), "VPN framing is selected exactly when the scan range has no source MAC", fmt.Sprintf("stores %v under SrcMAC==nil=%v", s.Term(e.Val), macNil))
+				if !(isB && b && macNil) {
+					okAll, detail = false, fmt.Sprintf("stores %v under SrcMAC==nil=%v", s.Term(e.Val), macNil)
+				}
 			}
+		}
+		if seen {
+			r.Check(okAll, "C05.R4", FuncName(fn)+"/sets-vpnMode", pos, "VPN framing is selected exactly when the scan range has no source MAC", detail)
 		}
 	}
 }
